@@ -162,6 +162,40 @@ def check(run, model, tier):
                             pos_ = p_ if same_ else not p_
                         if (op_ == 'Falsy') == pos_:
                             ok2 = True
+        if not (ok1 and ok2):
+            # path-sensitive: the classification may travel through a constant-valued local (`kind = 'hook'` ... `if kind == 'hook':`): which outcomes of the two
+            # observations are possible where the HOOK line is written
+            from sa.boolflow import values_at as _va
+            watch_ = {}
+            for t in g.nodes:
+                if t.kind != 'test':
+                    continue
+                for x in ast.walk(t.ast):
+                    if isinstance(x, (ast.Compare, ast.Call)) and 'is_inner_signal(' in norm(x) and (isinstance(x, ast.Compare) or norm(x.func).endswith('is_inner_signal')):
+                        i_, p_ = strip_not(x)
+                        pos_ = True
+                        if isinstance(x, ast.Compare) and len(x.ops) == 1 and isinstance(x.comparators[0], ast.Constant) and isinstance(x.comparators[0].value, bool):
+                            pos_ = isinstance(x.ops[0], (ast.Is, ast.Eq)) == x.comparators[0].value
+                        watch_[norm(x)] = ('inner', pos_)
+                    if isinstance(x, ast.Compare) and len(x.ops) == 1 and any(status_const(y) == 'HANDLED' for y in ast.walk(x)):
+                        watch_[norm(x)] = ('handled', isinstance(x.ops[0], (ast.Is, ast.Eq)))
+            try:
+                vals_ = _va(g, n, set(watch_), fnode=inner.node, params=inner.params)
+            except AnalysisError:
+                vals_ = []
+            if vals_:
+                def known(v_, what, want):
+                    return any(k_[0] == what and v_.get(txt_) is (want == k_[1]) for txt_, k_ in watch_.items() if v_.get(txt_) is not None)
+                ok1 = ok1 or all(known(v_, 'handled', True) for v_ in vals_)
+                ok2 = ok2 or all(known(v_, 'inner', False) for v_ in vals_)
+        if not (ok1 and ok2):
+            # a guard on a local the analysis cannot see through (a classification code computed from the observations) is an unknown idiom, not evidence of a defect
+            opaque = [t for t in g.nodes if t.kind == 'test' and any(guarded_by_edge(g, n, t, lab_) for lab_ in ('true', 'false'))
+                      and any(isinstance(x, ast.Name) and x.id not in inner.params and len(local_defs(inner.node).get(x.id, [])) >= 2
+                              and all(isinstance(d_, (ast.Constant, ast.Name)) for d_ in local_defs(inner.node)[x.id]) for x in ast.walk(t.ast))
+                      and not any(status_const(y) for y in ast.walk(t.ast)) and 'is_inner_signal' not in norm(t.ast)]
+            if opaque:
+                raise AnalysisError('spy_on: the HOOK line is guarded by %s, a local the analysis cannot relate to the inner-signal / HANDLED observations' % norm(opaque[0].ast))
         ok3 = all(g.dominates(cn, n) for cn in inst_calls) and bool(inst_calls)
         run.inst('SPY.hook-marker', inner, 'HOOK only if the handler returned HANDLED', ok1, 'the HOOK line is not control-dependent on `status is HANDLED`', node=c, obligation=True)
         run.inst('SPY.hook-marker', inner, 'HOOK only for non-inner signals', ok2, 'the HOOK line is not control-dependent on the inner-signal test', node=c, obligation=True)
